@@ -44,6 +44,9 @@ type monitorFn func(r *rng, n int, res *MonitorResult)
 
 var monitors = map[string]monitorFn{}
 
+// input-class counters a slice may publish (generator distribution)
+var sliceStats = map[string]map[string]int{}
+
 func main() {
 	if len(os.Args) < 2 {
 		fmt.Fprintln(os.Stderr, "usage: psharness facts|ops|monitor|replay ...")
@@ -83,6 +86,9 @@ func main() {
 		rf.Close()
 		if len(os.Args) > 7 {
 			st := map[string]interface{}{"ops": cnt, "distinct_ops": len(distinct), "histogram": hist}
+			if ic, ok := sliceStats[name]; ok {
+				st["input_classes"] = ic
+			}
 			b, _ := json.MarshalIndent(st, "", " ")
 			os.WriteFile(os.Args[7], b, 0o644)
 		}
@@ -137,6 +143,9 @@ func main() {
 }
 
 func opKind(op string) string {
+	if strings.HasPrefix(op, "pol.op ") {
+		return strings.Join(strings.Fields(op)[:2], " ")
+	}
 	for i := 0; i < len(op); i++ {
 		if op[i] == ' ' {
 			return op[:i]
@@ -146,6 +155,12 @@ func opKind(op string) string {
 }
 
 func resKind(res string) string {
+	if i := strings.Index(res, " fresh="); i >= 0 {
+		return strings.Fields(res)[0] + res[i:]
+	}
+	if strings.HasPrefix(res, "ok allow=") {
+		return "ok"
+	}
 	if len(res) > 24 && !strings.Contains(res[:24], " ") {
 		return res[:8] + "…"
 	}
